@@ -111,6 +111,62 @@ class Index:
                 sc(v)
         return out
 
+    def users(self, key):
+        """Local functions that call `key`, construct it (closure) or take its address."""
+        if not hasattr(self, "_users"):
+            self._users = {}
+            for k, es in self.edges.items():
+                for e in es:
+                    self._users.setdefault(e, set()).add(k)
+        return self._users.get(key, set())
+
+    def externally_callable(self, key):
+        """May code outside the crate (or an implicit language mechanism) invoke this function directly?"""
+        f = self.p.fns.get(key)
+        if f is None:
+            return True
+        if f.get("impl_trait_path"):
+            return True            # trait methods are invoked through the trait (Drop, fmt, Iterator, ...) wherever the type travels
+        if f.get("vis") != "pub":
+            return False
+        if "impl_self_ty" in f:
+            t = self.p.ty(f["impl_self_ty"])
+            path = t.get("path")
+            for a in self.p.j["adts"]:
+                if a["path"] == path:
+                    return a.get("vis") == "pub"
+        return True
+
+    def gated(self, key, gates, _seen=None):
+        """Every way of reaching `key` goes through one of `gates`: key is a gate, or it cannot be invoked from outside and every local user is gated.
+        A function nobody uses is vacuously gated (dead code)."""
+        if key in gates:
+            return True
+        _seen = _seen if _seen is not None else set()
+        if key in _seen:
+            return True
+        _seen.add(key)
+        if self.externally_callable(key):
+            return False
+        return all(self.gated(u, gates, _seen) for u in self.users(key))
+
+    def ungated_path(self, key, gates):
+        """A witness chain [entry, ..., key] that avoids the gates (for diagnostics), or None."""
+        seen = set()
+
+        def go(k):
+            if k in gates or k in seen:
+                return None
+            seen.add(k)
+            if self.externally_callable(k):
+                return [k]
+            for u in sorted(self.users(k)):
+                r = go(u)
+                if r:
+                    return r + [k]
+            return None
+        return go(key)
+
     def ext_callers(self, pred):
         """All (fn key, bb, term, name) whose external callee name satisfies pred."""
         out = []
